@@ -122,7 +122,11 @@ func c20Ref(tmpl, ident string, ig, id int) (string, bool) {
 
 var c20Fillers = []string{"", "_", "-", ".", "x", "__", "é", "ü", "中文", "ж", "ɐ", "ı", "ſ", "ß", "ǆ", "\xff", "\xc3", "a\x80b", "İ", " ", "K", "ﬁ", "1", "zz-",
 	// proper prefixes of the two words: a matcher must not lose the word that follows a partial match
-	"g", "G", "d", "D", "de", "Des", "design", "DESIGNE", "bigG", "og"}
+	"g", "G", "d", "D", "de", "Des", "design", "DESIGNE", "bigG", "og",
+	// text that means something to a formatting or pattern layer, which prefix / separator / suffix must never reach
+	"%", "%s", "%d", "100%", "%%", "%v_", "%!", "\\", "$1", "{}", "*",
+	// long stretches: the two words may lie anywhere in a template of any length
+	strings.Repeat("x", 61), strings.Repeat("ab_", 30), strings.Repeat("é", 40), strings.Repeat("-", 300)}
 
 func c20Filler(r *rand.Rand) string {
 	n := r.Intn(3)
